@@ -89,7 +89,34 @@ C01(x, r) == C01Terminals(x, r) /\ C01Descent(x, r) /\ C01Reaches(x, r)
 (* floating-point increment per node).                                       *)
 C02NotBelow(x, r) == \A i \in NodesOf(x) : At(r.zout, i) >= At(r.zin, i)
 C02Fixed(x, r) == \A i \in NodesOf(x) : (Msk(x, i) \/ i \in x.bl) => (At(r.zout, i) = At(r.zin, i) /\ At(r.same, i) = 1)
-C02Level(x, r) == LET S == Spill(x, r.zin) IN
+\* The least fixpoint above costs (number of nodes) x (longest flood path) evaluations.  The harness also
+\* logs a CERTIFICATE for it (untrusted): spn[i] = a node whose input elevation is the spill level of i
+\* (-1: none), spp[i] = the neighbour through which the flood reaches i, spo[i] = flood order.  TLC verifies
+\* in one pass that the certified levels are a fixpoint of SpillStep with the same finite / INF pattern
+\* (hence <= the least fixpoint: along any path S(v_j) <= max(z(v_j), S(v_j-1))) and that every level is
+\* witnessed by a path (parents decrease in flood order down to a base level, S(i) = max(z(i), S(parent)),
+\* hence >= the least fixpoint).  A certificate that fails is ignored and the fixpoint is computed.
+HasSpillCert(r) == "spn" \in DOMAIN r /\ "spp" \in DOMAIN r /\ "spo" \in DOMAIN r
+SpillOfCert(x, r) == [i \in NodesOf(x) |-> IF At(r.spn, i) = 0 - 1 THEN INF ELSE At(r.zin, At(r.spn, i))]
+SpillCertOK(x, r) ==
+  /\ Len(r.spn) = x.n /\ Len(r.spp) = x.n /\ Len(r.spo) = x.n
+  /\ \A i \in NodesOf(x) : At(r.spn, i) \in (0 - 1)..(x.n - 1) /\ At(r.spp, i) \in (0 - 1)..(x.n - 1)
+  /\ LET S == TLCEval(SpillOfCert(x, r)) IN
+     \A i \in NodesOf(x) :
+        IF Msk(x, i) THEN S[i] = INF
+        ELSE IF i \in x.bl THEN S[i] = At(r.zin, i)
+        ELSE LET c == {S[m] : m \in UNb(x, i)}
+                 mn == IF c = {} THEN INF ELSE SetMin(c)
+             IN IF mn = INF THEN S[i] = INF
+                ELSE /\ S[i] = Max2(mn, At(r.zin, i))
+                     /\ LET p == At(r.spp, i) IN
+                          /\ p \in UNb(x, i)
+                          /\ S[p] = mn
+                          /\ At(r.spo, p) < At(r.spo, i)
+SpillLevels(x, r) == IF HasSpillCert(r) /\ SpillCertOK(x, r) THEN TLCEval(SpillOfCert(x, r)) ELSE Spill(x, r.zin)
+\* (machinery self-check on small worlds: an accepted certificate equals the computed fixpoint)
+SpillCertAgrees(x, r) == (HasSpillCert(r) /\ SpillCertOK(x, r) /\ x.n <= 30) => SpillOfCert(x, r) = Spill(x, r.zin)
+C02Level(x, r) == LET S == SpillLevels(x, r) IN
    \A i \in NodesOf(x) : (~Msk(x, i) /\ S[i] # INF) => (At(r.zout, i) >= S[i] /\ At(r.zout, i) <= S[i] + x.n)
 C02(x, r) == C02NotBelow(x, r) /\ C02Fixed(x, r) /\ C02Level(x, r)
 \* without any elevation-updating operator the result is the input itself
@@ -205,6 +232,21 @@ AccBalance(x, r, a) ==
              LET j == (q - 1) \div r.width   k == ((q - 1) % r.width) + 1
              IN IF k <= Len(RecSeq(r, j)) /\ RecSeq(r, j)[k] = i /\ j # i
                   THEN At(a.ai, j) * At(r.w8, j)[k] ELSE 0])
+\* The same balance on EVERY graph whose values are in range, in fixed point: acc in units of 2^-5 (aq),
+\* weights cut to 2^-9 (from the logged Q(20) weights), both sides in units of 2^-14.  The tolerance is
+\* the quantisation alone: half a unit of aq on the left (256), and per donor term |acc_d| 2^-9 for the
+\* weight (= |aq_d| units) plus 2^-6 for the donor's accumulation (256 units) plus one for the cut.
+AccApproxDomain(x, r, a) == "aqx" \in DOMAIN a /\ a.aqx = 1 /\ \A i \in NodesOf(x) : At(a.areax, i) = 1
+AccApproxBalance(x, r, a) ==
+  \A i \in NodesOf(x) :
+     LET slot(q) == LET j == (q - 1) \div r.width   k == ((q - 1) % r.width) + 1
+                    IN IF k <= Len(RecSeq(r, j)) /\ RecSeq(r, j)[k] = i /\ j # i
+                         THEN <<At(a.aq, j) * (At(r.wq, j)[k] \div 2048), Abs(At(a.aq, j)) + 257>>
+                         ELSE <<0, 0>>
+         sl == [q \in 1..(x.n * r.width) |-> slot(q)]
+         sum == SumSeq([q \in 1..(x.n * r.width) |-> sl[q][1]])
+         tol == 256 + SumSeq([q \in 1..(x.n * r.width) |-> sl[q][2]])
+     IN Abs(At(a.aq, i) * 512 - (At(a.area, i) * At(a.src, i) * 16384 + sum)) <= tol
 AccConserves(x, r, a) ==
   LET term == {i \in NodesOf(x) : RecSetOf(r, i) = {i}}
       ai == [i \in NodesOf(x) |-> At(a.ai, i)]
@@ -247,7 +289,10 @@ MinRecNext(r, e, i) == SetMin({At(e.rhn, j) : j \in RecSetOf(r, i)})
 SplTerminalsZero(x, r, e) == \A i \in NodesOf(x) : (Msk(x, i) \/ SelfOnly(r, i)) => At(e.ez, i) = 1
 SplLakesZero(x, r, e) == \A i \in NodesOf(x) : (~SelfOnly(r, i) /\ At(e.rh, i) <= MinRecNext(r, e, i)) => At(e.ez, i) = 1
 SplFinite(x, e) == \A i \in NodesOf(x) : At(e.ecls, i) = 0
-SplNonNegative(x, e) == \A i \in NodesOf(x) : At(e.rhn, i) <= At(e.rh, i) + 2
+\* "never negative beyond rounding": the new elevation is (h + sum f_k h_k) / (1 + sum f_k) evaluated in
+\* floating point, one product and two additions per receiver plus the division and the final
+\* subtraction; each contributes at most one ulp at the magnitude of h, hence 2 + 2 nrec ulps
+SplNonNegative(x, r, e) == \A i \in NodesOf(x) : At(e.rhn, i) <= At(e.rh, i) + 2 + 2 * At(r.nrec, i)
 \* a node that is eroded (non-zero erosion) is not lowered below its lowest receiver
 \* (rhnu: the recomputed elevation plus two ulps of the node's own magnitude - the erosion is
 \* returned rounded at that magnitude, so "not below" can only be meant up to it)
